@@ -170,6 +170,7 @@ func main() {
 		runValid(w, r.Fork(), a.Tier)
 		runMalformed(w, r.Fork(), a.Tier)
 		runLoadFile(w, r.Fork(), a.Tier)
+		runFailingReader(w, r.Fork(), a.Tier)
 		runPrograms(w, r.Fork(), a.Tier, a.Out)
 		runTokenMutations(w, r.Fork(), a.Tier)
 		runAdversarial(w, a.Tier)
@@ -211,6 +212,14 @@ func replay(w *lib.Writer, path string) {
 			bad = "LoadFile ends in " + loadNames[rs[0].Load] + " but LoadString of the text without its '#' line ends in " + loadNames[rs[1].Load]
 		}
 		addFileCase(w, in, rs[0], bad)
+	case "failread":
+		rs := runAll([]Request{{ID: 0, Src: in.Src, FailAt: in.N, LimitMs: 3000}}, 1)
+		id := w.NextID()
+		ok := rs[0].Load == loadSyntax || rs[0].Load == loadFileErr
+		w.Add(lib.Case{Input: in, Observed: observed(rs[0]), Class: "replay", Nontrivial: true, Coq: "CGoSide " + lib.CoqBool(ok)})
+		if !ok {
+			w.GoFail(id, "Load from a failing reader ended in "+loadNames[rs[0].Load]+": "+rs[0].Msg)
+		}
 	case "prog":
 		progCheck(w, [][]Lexeme{in.A}, [][]Lexeme{in.B}, lib.NewRand(1), filepath.Dir(path))
 	case "parse":
